@@ -11,6 +11,7 @@ from .. import guard as G
 from .. import layout as L
 from .. import spec as S
 from ..guard import N, arg, fld, deref, cn
+from . import c05
 from . import c03
 from . import tagtables as TT
 
@@ -127,6 +128,8 @@ def run(ctx):
     # ---- H5
     c03.check_next(ctx, F, "multiboot2_header::tags::HeaderTagHeader", 4, "HeaderTagHeader", rule_prefix="H5.T")
     ctx.import_prop("C15")
+    # requests() of the information-request tag and the header's own payload: their extents are C05's premises for these two kinds
+    ctx.import_prop("C05", only=c05.only_header_kinds, label="header kinds")
     return ctx.finish(
         "other",
         "Compiler layouts of the basic header, the tag header and all 11 header-tag structs, and the discriminants of the four enums, against "
